@@ -476,7 +476,8 @@ class C16(PropCheck):
     id = 'C16'
     extractors = (pdf_tags.generate,)
     modules = ('WpModel.Props.C16', 'WpModel.Props.C16File', 'WpModel.Props.C16More', 'WpModel.Props.C16Fonts',
-               'WpModel.Props.C16Cache', 'WpModel.Props.C16Gradient', 'WpModel.Witness.C16')
+               'WpModel.Props.C16Cache', 'WpModel.Props.C16Gradient', 'WpModel.Props.C16Background',
+               'WpModel.Witness.C16')
     trusted_base = (
         'modelled, not verified: pdf/stream.py Stream (operator state machine, caches, peepholes, resource '
         'registration), draw/stack.py stacked, the page loop of generate_pdf (Model/PdfStream, Model/PdfPages)',
@@ -695,6 +696,14 @@ class C16(PropCheck):
             'already own shadings) is replaced by the model\'s own calls, predicted from the gradient layout (solid, any '
             'alpha != 1, scale_y) and the document state; all streams and resource dictionaries compared. non-trivial = '
             'a gradient with a non-opaque stop, or drawn on a stream that already owns a shading')
+        sec_bg = run.section(
+            'document-backgrounds',
+            'the same runs against Model/BackgroundDraw: every recorded draw_background_image (skipped layer; no-repeat '
+            'layer: optional clip, group, transform, image, Do; repeated layer: pattern, group in the pattern, stacked '
+            'Pattern colour space / scn / rectangle / fill) is replaced by the model\'s own calls, predicted from the '
+            'layer (image None or empty, repeat, unbounded) and the document state; what `layer.image.draw` does is '
+            'replayed (gradients through Model/GradientDraw); all streams and resource dictionaries compared. '
+            'non-trivial = a repeated (pattern) layer, or more than one layer on one stream')
         sec_fonts = run.section(
             'document-fonts',
             'the same runs, fonts: the keys of the /Font dictionary of the written PDF, in order (independent reader), '
@@ -711,7 +720,7 @@ class C16(PropCheck):
             'and the Lean file checker (`checkFile`: header, startxref, table, /Size, every in-use offset at `n g obj`) must '
             'accept the real bytes with the object count and table position the independent reader found')
         file_budget = [run.n(2_500_000, 40_000_000)]
-        n_docs = run.n(100, 1400)
+        n_docs = run.n(100, 1000)
         for i in range(n_docs):
             variant = c16docs.VARIANTS[i % len(c16docs.VARIANTS)]
             html, geo = c16docs.document(run.rng, depth=run.rng.choice([1, 2, 3]))
@@ -770,6 +779,19 @@ class C16(PropCheck):
                                       (['grad:same-stream-again'] if repeated else []) +
                                       (['grad:translucent-on-used-stream'] if translucent and repeated else []) +
                                       (['grad:solid'] if any(g[2] and g[2]['solid'] for g in recorder.gradients) else []))
+                if recorder.backgrounds:
+                    try:
+                        bg_line = apilog.background_line(recorder, mark)
+                        bg_expected = recorder.show(wb='', refs=False).replace('ok  | ', 'ok | ')
+                    except apilog.ShapeMismatch as exc:
+                        bg_line, bg_expected = sx.line('docbg', mark), f'shape-mismatch:{exc}'
+                    kinds = ['bg:skip' if b[2]['skip'] else 'bg:no-repeat' if b[2]['no_repeat'] else 'bg:pattern'
+                             for b in recorder.backgrounds]
+                    drawn_on = [b[2]['h'] for b in recorder.backgrounds if not b[2]['skip']]
+                    sec_bg.add(bg_line, bg_expected, meta=meta,
+                               nontrivial='bg:pattern' in kinds or len(drawn_on) != len(set(drawn_on)),
+                               tags=sorted(set(kinds)) + [f'layers{min(len(kinds) // 3 * 3, 12)}+'] + (
+                                   ['bg:unbounded'] if any(b[2]['unbounded'] for b in recorder.backgrounds) else []))
                 contexts = sum(1 for e in recorder.tree_events if e[0] == 'ctx-begin')
                 kinds = sorted({f'ctx:{k}' for e in recorder.tree_events if e[0] == 'ctx-begin'
                                 for k in context_kinds(e[2])})
@@ -878,7 +900,7 @@ class C16(PropCheck):
                         f'(PDF 32000-1 7.9.6) [options {meta["options"]}]')
             return None
         if section in ('document-streams', 'document-api', 'document-skeleton', 'document-file', 'document-fonts',
-                       'document-gradients'):
+                       'document-gradients', 'document-backgrounds'):
             # every disagreement is one document rendered again: judge the first few, the rest adds nothing
             self._doc_judged = self.__dict__.get('_doc_judged', 0) + 1
             if self._doc_judged > 8 and self.__dict__.get('_kinds_judged'):
@@ -1470,7 +1492,11 @@ MANIFEST = {
             'fonts_defined, fonts_total); caches sound around the raw setters under the stacked discipline the recorded '
             'runs follow (cache_sound_scoped); Gradient.draw on any stream of any '
             'document state keeps every name defined, the soft-mask group names its own shading '
-            '(gradient_resources_defined, document_resources_defined: the `refs=ok` flag of the recorded runs); the /W '
+            '(gradient_resources_defined, document_resources_defined: the `refs=ok` flag of the recorded runs); '
+            'draw_background_image (skipped / no-repeat / pattern layers, any image content that keeps the invariant) keeps '
+            'every name defined, alone and along whole runs, and its Pattern setters follow the cache discipline '
+            '(background_image_resources_defined, document_backgrounds_resources_defined, '
+            'background_pattern_calls_scoped); dictionaries only grow along any scoped run (resources_only_grow); the /W '
             'array of a CID font decodes back to the width table and the /CIDSet bits are the used glyph ids '
             '(w_array_round_trip, cid_set_bits).',
     'note': 'pydyf object syntax / xref / trailer / compression, font embedding (fontTools) and XMP metadata are checked '
